@@ -91,6 +91,41 @@ theorem taintOf_unit (cs : List Rat) (h : ∀ c ∈ cs, Unit01 c) : Unit01 (tain
     apply compl_unit
     exact foldl_taint_unit (b :: rest) a (h a (by simp)) (fun y hy => h y (by simp [hy]))
 
+/-- C20: node taints stay in [0,1] over any sequence of mining rounds (the running maximum the SDK keeps) -/
+theorem taintHistory_unit (isSeed : Bool) (cs : List Rat) (h : ∀ c ∈ cs, Unit01 c) : Unit01 (taintHistory isSeed cs) := by
+  unfold taintHistory
+  split
+  · exact ⟨by decide, le_refl _⟩
+  · have key : ∀ (ks : List Nat) (t : Rat), Unit01 t →
+        Unit01 (ks.foldl (fun t k => max t (taintOf (cs.take k))) t) := by
+      intro ks
+      induction ks with
+      | nil => intro t ht; exact ht
+      | cons k ks ih =>
+        intro t ht
+        simp only [List.foldl_cons]
+        apply ih
+        have hk := taintOf_unit (cs.take k) (fun c hc => h c (List.mem_of_mem_take hc))
+        constructor
+        · exact le_trans ht.1 (le_max_left _ _)
+        · exact max_le ht.2 hk.2
+    exact key _ 0 ⟨le_refl _, by decide⟩
+
+/-- ... and never decrease from one round to the next -/
+theorem taintHistory_mono (cs : List Rat) (c : Rat) : taintHistory false cs ≤ taintHistory false (cs ++ [c]) := by
+  unfold taintHistory
+  simp only [Bool.false_eq_true, if_false, List.length_append, List.length_singleton]
+  conv => rhs; rw [List.range_succ, List.foldl_append]
+  simp only [List.foldl_cons, List.foldl_nil]
+  have : (List.range (cs.length + 1)).foldl (fun t k => max t (taintOf ((cs ++ [c]).take k))) 0 =
+      (List.range (cs.length + 1)).foldl (fun t k => max t (taintOf (cs.take k))) 0 := by
+    apply List.foldl_ext
+    intro t k hk
+    have : k ≤ cs.length := by simpa [List.mem_range] using Nat.lt_succ_iff.mp (List.mem_range.mp hk)
+    rw [List.take_append_of_le_length this]
+  rw [this]
+  exact le_max_left _ _
+
 /-- C20: a reasoning step never raises the confidence: the confidence of a node reached from the
 seed is a product of factors in [0,1] -/
 theorem dijkstra_unit (s e t c : Rat) (hs : Unit01 s) (he : Unit01 e) (ht : Unit01 t) (hc : Unit01 c) :
